@@ -113,6 +113,9 @@ func commandPattern(n *Node) string {
 	if n.BgTail {
 		b.WriteString(" -bg")
 	}
+	if n.Head > 0 {
+		fmt.Fprintf(&b, " -head %d", n.Head)
+	}
 	if n.TouchIn {
 		b.WriteString(" -touchin")
 	}
